@@ -96,6 +96,7 @@ func (m *FloodSub) Execute(ctx context.Context) error {
 
 	pubbedChannels := make(map[string]struct{})
 	for {
+		verifGate("floodsub.execTop", m)
 		var initSet []*SubscriptionOpts
 		m.mtx.Lock()
 		for i := range m.incSessions {
@@ -135,6 +136,7 @@ func (m *FloodSub) Execute(ctx context.Context) error {
 		m.incSessions = nil
 		m.mtx.Unlock() // intentional mtx hold-break
 		initSet = nil
+		verifGate("floodsub.holdBreak", m)
 
 		var xmitPeers []*streamHandler
 		var subChanges []*SubscriptionOpts
@@ -174,6 +176,7 @@ func (m *FloodSub) Execute(ctx context.Context) error {
 		for _, p := range xmitPeers { // xmitPeers is usually nil
 			p.writePacket(&Packet{Subscriptions: subChanges})
 		}
+		verifGate("floodsub.execSent", m)
 
 		var woken bool
 		for !woken {
@@ -348,6 +351,7 @@ func (m *FloodSub) handleValidMessage(
 	if _, ok := m.seenMessages.Get(msgId); ok {
 		return
 	}
+	verifGate("floodsub.seen", m, prevHopPeer, pkt)
 	m.seenMessages.Set(msgId, pkt, 0)
 
 	pid, err := peer.IDB58Decode(pkt.GetFromPeerId())
@@ -360,11 +364,13 @@ func (m *FloodSub) handleValidMessage(
 	for sub := range subs {
 		ss := sub
 		go func() {
+			verifGate("floodsub.deliver", m, ss, msg)
 			ss.mtx.Lock()
 			for s := range ss.handlers {
 				s.cb(msg)
 			}
 			ss.mtx.Unlock()
+			verifGate("floodsub.delivered", m, ss, msg)
 		}()
 	}
 	m.mtx.Unlock()
